@@ -51,6 +51,12 @@ def run(call):
             exp = [all(b for b, g, r in zip(bools, eid, inrole) if g == k and (role is None or r)) for k in range(count)]
             g = [bool(x) for x in got]
             return {"kind": "return", "value": {"ok": g == exp, "got": g, "expected": exp}}
+        elif op == "all_numeric":
+            # all() of a numeric array: true where every member (in the role) has a non-zero value
+            got = hh.all(vals, role=role)
+            exp = [all(v != 0 for v, g, r in zip(vals, eid, inrole) if g == k and (role is None or r)) for k in range(count)]
+            g = [bool(x) for x in got]
+            return {"kind": "return", "value": {"ok": g == exp, "got": g, "expected": exp}}
         elif op in ("max", "min"):
             got = getattr(hh, op)(vals, role=role)
             fn = max if op == "max" else min
@@ -69,6 +75,29 @@ def run(call):
             for k in range(count):
                 members = [v for v, g in zip(vals, eid) if g == k]
                 exp.append(members[n] if len(members) > n else -1.0)
+        elif op == "projector_chains":
+            # household.first_person(...) and person.household.first_person(...) on one simulation, in both orders: each chain projects
+            # through its own parents (group-sized result / person-sized result)
+            bad = []
+            for order in ((0, 1), (1, 0)):
+                sim2, hh2, _ = build(eid, count, inrole)
+                pers = sim2.persons
+                exp_g = [next((v for v, g in zip(vals, eid) if g == k), 0.0) for k in range(count)]
+                exp_p = [exp_g[g] for g in eid]
+                for which in order:
+                    if which == 0:
+                        r = [float(x) for x in hh2.first_person.filled_array(0.0) + hh2.value_from_first_person(vals)] if False else \
+                            [float(x) for x in hh2.value_from_first_person(vals)]
+                        pr = hh2.first_person
+                        got = [float(x) for x in pr.transform_and_bubble_up(vals)]
+                        if got != exp_g:
+                            bad.append(f"household.first_person gives {got}, expected {exp_g} (order {order})")
+                    else:
+                        pr = pers.household.first_person
+                        got = [float(x) for x in pr.transform_and_bubble_up(vals)]
+                        if got != exp_p:
+                            bad.append(f"person.household.first_person gives {got}, expected {exp_p} (order {order})")
+            return {"kind": "return", "value": {"ok": not bad, "wrong": bad[:3]}}
         elif op == "get_rank":
             # inrole doubles as the condition; judged by the statement: -1 outside the condition; within a group the ranks of the
             # members in the condition are a permutation of 0..m-1 that follows the criterion
